@@ -243,6 +243,25 @@ Proof.
   eapply rinv_step; eauto.
 Qed.
 
+Lemma watcher_inner v bs (w : bool) (b0 : beh) i0 x :
+  rinv v bs i0 -> r_pc i0 = RIdle -> r_running i0 = false ->
+  (if w
+   then match step_r v i0 (RAddCheck b0) with
+        | Some x1 => step_r v x1 (RAddAppend (length (r_adds i0)))
+        | None => None
+        end
+   else Some i0) = Some x ->
+  rinv v bs x /\ r_pc x = RIdle /\ r_running x = false.
+Proof.
+  intros I Hpc Hr H. destruct w; [|inv H; auto].
+  destruct (step_r v i0 (RAddCheck b0)) as [x1|] eqn:E1; try discriminate.
+  assert (I1 : rinv v bs x1) by (eapply rinv_step; eauto).
+  destruct (step_r_idle v bs i0 (RAddCheck b0) x1 I Hpc Hr eq_refl E1) as [Hpc1 Hr1].
+  assert (I2 : rinv v bs x) by (eapply rinv_step; eauto).
+  destruct (step_r_idle v bs x1 (RAddAppend (length (r_adds i0))) x I1 Hpc1 Hr1 eq_refl H) as [Hpc2 Hr2].
+  auto.
+Qed.
+
 Lemma cinv_step v grace bs s e s' : cinv v grace bs s -> step_c v s e = Some s' -> cinv v grace bs s'.
 Proof.
   intros I H.
@@ -257,10 +276,16 @@ Proof.
       * intros _. apply Iidle. rewrite Hpc. exact Logic.I.
       * intros _. apply Ireterr. rewrite Hpc. cbn. tauto.
   - (* CSetupLen *)
-    destruct (c_pc s) eqn:Epc; try discriminate. inv H.
+    destruct (c_pc s) eqn:Epc; try discriminate.
     assert (Hrun : c_running s = true) by (apply Irun; discriminate).
-    constructor; cfin.
-    intro Hs; destruct (Istop Hs) as [Hx|Hx]; [discriminate Hx | cbn in Hx; tauto].
+    destruct (Iidle Logic.I) as [Hipc Hirun].
+    destruct (is_fixed v).
+    + match type of H with match ?m with _ => _ end = _ => destruct m as [x|] eqn:Ex; try discriminate end.
+      inv H. destruct (watcher_inner _ _ _ _ _ _ Iin Hipc Hirun Ex) as [Ix [Hxpc Hxr]].
+      constructor; cfin.
+      intro Hs; destruct (Istop Hs) as [Hx|Hx]; [discriminate Hx | cbn in Hx; tauto].
+    + inv H. constructor; cfin.
+      intro Hs; destruct (Istop Hs) as [Hx|Hx]; [discriminate Hx | cbn in Hx; tauto].
   - (* CSetup *)
     destruct (c_pc s) eqn:Epc; try discriminate.
     assert (Hrun : c_running s = true) by (apply Irun; discriminate).
@@ -460,30 +485,55 @@ Proof.
   - (* CAddCheck *)
     destruct (c_running s) eqn:Er.
     + inv H. constructor; cfin.
-    + destruct (step_r v (inner s) (RAddCheck b)) as [x|] eqn:Ex; inv H.
+    + destruct (is_fixed v).
+      * inv H. constructor; cfin.
+        intro Hpc. exfalso. apply Hpc. apply (Inot eq_refl).
+      * destruct (step_r v (inner s) (RAddCheck b)) as [x|] eqn:Ex; inv H.
+        constructor; cfin.
+        { eapply rinv_step; eauto. }
+        { intro Hpc. exfalso. apply Hpc. apply (Inot eq_refl). }
+        { intro Hpc. destruct (Iidle Hpc). eapply step_r_idle with (ev := RAddCheck b); eauto. }
+        { intros n i errs Hpc. destruct (Icoll n i errs Hpc) as [? [? [rerrs [Hr HP]]]].
+          repeat split; auto. exists rerrs. split; auto.
+          eapply step_r_returned with (ev := RAddCheck b); eauto. }
+        { intros errs Hpc. destruct (Idn errs Hpc) as [? [rerrs [Hr HP]]].
+          split; auto. exists rerrs. split; auto.
+          eapply step_r_returned with (ev := RAddCheck b); eauto. }
+  - (* CAddAppend *)
+    destruct (nth_error (cadds s) k) as [[|a|b]|] eqn:Ek; try discriminate.
+    + destruct (lock_held s || is_fixed v) eqn:El; try discriminate.
+      destruct (step_r v (inner s) (RAddAppend a)) as [x|] eqn:Ex; inv H.
       constructor; cfin.
       * eapply rinv_step; eauto.
-      * intro Hpc. exfalso. apply Hpc. apply (Inot eq_refl).
-      * intro Hpc. destruct (Iidle Hpc). eapply step_r_idle with (ev := RAddCheck b); eauto.
+      * intro Hpc. destruct (Iidle Hpc). eapply step_r_idle with (ev := RAddAppend a); eauto.
       * intros n i errs Hpc. destruct (Icoll n i errs Hpc) as [? [? [rerrs [Hr HP]]]].
         repeat split; auto. exists rerrs. split; auto.
-        eapply step_r_returned with (ev := RAddCheck b); eauto.
+        eapply step_r_returned with (ev := RAddAppend a); eauto.
       * intros errs Hpc. destruct (Idn errs Hpc) as [? [rerrs [Hr HP]]].
         split; auto. exists rerrs. split; auto.
-        eapply step_r_returned with (ev := RAddCheck b); eauto.
-  - (* CAddAppend *)
-    destruct (nth_error (cadds s) k) as [[|a]|] eqn:Ek; try discriminate.
-    destruct (lock_held s) eqn:El; try discriminate.
-    destruct (step_r v (inner s) (RAddAppend a)) as [x|] eqn:Ex; inv H.
-    constructor; cfin.
-    + eapply rinv_step; eauto.
-    + intro Hpc. destruct (Iidle Hpc). eapply step_r_idle with (ev := RAddAppend a); eauto.
-    + intros n i errs Hpc. destruct (Icoll n i errs Hpc) as [? [? [rerrs [Hr HP]]]].
-      repeat split; auto. exists rerrs. split; auto.
-      eapply step_r_returned with (ev := RAddAppend a); eauto.
-    + intros errs Hpc. destruct (Idn errs Hpc) as [? [rerrs [Hr HP]]].
-      split; auto. exists rerrs. split; auto.
-      eapply step_r_returned with (ev := RAddAppend a); eauto.
+        eapply step_r_returned with (ev := RAddAppend a); eauto.
+    + destruct (lock_held s || negb (is_fixed v)) eqn:El; try discriminate.
+      destruct (c_running s) eqn:Er.
+      * inv H. constructor; cfin.
+      * destruct (Inot eq_refl) as [Hpc Hst].
+        destruct (Iidle ltac:(rewrite Hpc; exact Logic.I)) as [Hipc Hirun].
+        assert (Hw : (if true
+                      then match step_r v (inner s) (RAddCheck b) with
+                           | Some x1 => step_r v x1 (RAddAppend (length (r_adds (inner s))))
+                           | None => None
+                           end
+                      else Some (inner s)) =
+                     match step_r v (inner s) (RAddCheck b) with
+                     | Some x1 => step_r v x1 (RAddAppend (length (r_adds (inner s))))
+                     | None => None
+                     end) by reflexivity.
+        destruct (step_r v (inner s) (RAddCheck b)) as [x|] eqn:E1; try discriminate.
+        destruct (step_r v x (RAddAppend (length (r_adds (inner s))))) as [y|] eqn:E2; inv H.
+        destruct (watcher_inner v bs true b (inner s) y Iin Hipc Hirun) as [Iy [Hypc Hyr]].
+        { rewrite E1. exact E2. }
+        constructor; cfin.
+        { intros n i errs Hc. rewrite Hpc in Hc. discriminate. }
+        { intros errs Hc. rewrite Hpc in Hc. discriminate. }
 Qed.
 
 Lemma cinv_run v grace bs es : forall s s',
